@@ -83,8 +83,19 @@ def longline_case(draw):
     return {"kind": "edit", "lines": [draw(mbline), line], "keys": "j" + keys}
 
 
+@st.composite
+def hist_case(draw):
+    """prompt history (hist > 0): ^A takes the rest of an earlier command line as completion, through a 64-byte buffer"""
+    ch = draw(st.sampled_from(["é", "日", "😀", "ل"]))
+    k = draw(st.integers(0, 4))
+    n = draw(st.integers(10, 45))
+    first = ":s/a/" + "x" * k + ch * n + "/\n"
+    second = draw(st.sampled_from([":s\x01\n", ":s/\x01\n", ":\x01\n", ":s/a\x01\n", ":s\x01\x01\n"]))
+    return {"kind": "edit", "lines": ["a", "a", "a " + ch], "keys": ":se hist=%d\n" % draw(st.sampled_from([1, 8, 100])) + first + "j" + second + "j" + second}
+
+
 def strategy(tier):
-    return st.one_of(ustring.map(lambda b: {"kind": "str", "s": b}), edit_case(), edit_case(), tag_case(), longline_case())
+    return st.one_of(ustring.map(lambda b: {"kind": "str", "s": b}), edit_case(), edit_case(), tag_case(), longline_case(), hist_case())
 
 
 # ------------------------------------------------------------------ oracle for the uc op
